@@ -211,8 +211,9 @@ class Check(DiffCheck):
             '<=2 ops over the 64-bit edge universe {0,1,2^63,2^64-2,2^64-1} (thorough: 3 ops over a 38-op edge alphabet); PRNG: 4..14 ops, '
             '2..5 threads, offsets/lengths 0..6, all three lock kinds, stale handles, busy threads, and edge-value sequences. '
             'non-trivial = two requested ranges intersect, touch, are empty, or saturate')
-    assumptions = ['theorem guards: offset+length <= 2^64-1 (class of known finding F4 beyond it); length > 0 for ranges released through unlock(offset,length) (F3); '
-                   'no adjust_range of an entry that has waiters unless the new range covers the old one (F20)',
+    assumptions = ['theorem guards: offset+length <= 2^64-1 (class of known finding F4 beyond it) for rl_disjoint / rl_retry_succeeds / rl_unlock_erases / rl_adjust_safe; '
+                   'length > 0 (class of known finding F3) for rl_retry_succeeds / rl_unlock_erases / rl_no_ub; rl_ordered, rl_waiter_woken, rl_no_stuck_waiter need no guard',
+                   'the model is the code AFTER repo_patches/C18-fix-adjust-range-notify.diff (finding F20: adjust_range did not notify); the old behaviour is rl_adjust_prefix_refuted',
                    'handles passed to unlock(handle)/adjust_range name live nodes (anything else is UB in the C++; the harness does not execute it)',
                    'waiters of one condition variable resume in FIFO order on one vCPU (photon waitq; validated by the correspondence run, not proved)']
     trusted_base = ['m_lock (photon::spinlock) makes every RangeLock method body one atomic step; condition_variable::wait releases it atomically (properties C01/C03)',
